@@ -215,9 +215,10 @@ fn mutate(rng: &mut Rng, m: &Matrix, lex: &Lexicon) -> Mutated {
         }
         7 => {
             let f = *rng.pick(&[13usize, 15, 16, 17]);
-            let v = rng.s(&["9999", "99999999", "268435455", "268435456", "U0", "U1", "abc", "1/", "/1", "1//2", "-1", "0.5"]).to_string();
+            let v = rng.s(&["9999", "99999999", "268435455", "268435456", "U0", "U1", "abc", "1/", "/1", "1//2", "-1", "0.5",
+                "268435457", "536870912", "1073741824", "4026531840", "4294967294", "4294967295", "4294967296", "U268435456", "U4294967295"]).to_string();
             what = format!("row {}: reference field {} = {:?}", r, f, v);
-            if v == "9999" || v == "99999999" || v == "268435455" || v == "U0" || v == "U1" {
+            if v == "9999" || v == "99999999" || v == "268435455" || v == "U0" || v == "U1" || v.len() >= 9 {
                 expect = Expect::MustReject("dangling word reference");
             }
             rows[r][f] = v;
@@ -374,6 +375,32 @@ fn mutate(rng: &mut Rng, m: &Matrix, lex: &Lexicon) -> Mutated {
                 s.push('\n');
             }
             csv_override = Some(s.into_bytes());
+        }
+        28 if rng.chance(1, 2) => {
+            // the only references written inline (surface,pos*6,reading) stand in the B-unit column of one row whose
+            // splitting mode is B: still references that have to be resolved, or reported as unresolved
+            let usable: Vec<usize> = (0..n).filter(|i| {
+                let e = &lex.entries[*i];
+                let bad = |s: &str| s.is_empty() || s.contains('/') || s.contains(',') || s.contains('"') || s.contains('\\') || s.contains('\n') || s.contains('\r');
+                !bad(&e.key) && !bad(&e.reading) && e.pos.iter().all(|p| !bad(p)) && !e.escape
+            }).collect();
+            for row in rows.iter_mut() {
+                for f in [15usize, 16, 17] {
+                    if row[f].contains(',') {
+                        row[f] = "*".into();
+                    }
+                }
+            }
+            if usable.len() >= 2 {
+                let spec = |i: usize| { let e = &lex.entries[i]; format!("{},{},{}", e.key, e.pos.join(","), e.reading) };
+                let (a, b) = (*rng.pick(&usable), *rng.pick(&usable));
+                rows[r][14] = rng.s(&["B", "B", "BC"]).to_string();
+                rows[r][16] = format!("{}/{}", spec(a), spec(b));
+                what = format!("row {}: mode {}, B units written inline (the only inline references of the lexicon): {:?}", r, rows[r][14], rows[r][16]);
+            } else {
+                what = "inline references removed".into();
+            }
+            splits_touched = true;
         }
         28 => {
             // self reference / reference to a later row
